@@ -88,11 +88,14 @@ def main():
     ap = argparse.ArgumentParser()
     ap.add_argument("--only")
     ap.add_argument("--jobs", type=int, default=4)
+    ap.add_argument("--names", help="only seeded changes whose name starts with this (e.g. r8s)")
     args = ap.parse_args()
     jobs = []
     for d in sorted(glob.glob(os.path.join(VERIF, "seeded", "*", "*"))):
         pid, name = d.split(os.sep)[-2:]
         if args.only and pid not in args.only.split(","):
+            continue
+        if args.names and not name.startswith(args.names):
             continue
         if os.path.exists(os.path.join(d, "patch.diff")):
             jobs.append((pid, name, d))
